@@ -321,13 +321,118 @@ def h_translate(eng):
     eng.prove("translate.false_iff_failure", ops.to_z3(eng.truth(r, sym=True)) == z3.Not(failed))
 
 
-HARNESSES = [("tools.compiler.main", h_main), ("tools.compiler.translate", h_translate)]
-EXPECTED_COVER = {"main.exits", "main.returns", "translate.returns"}
+def h_parse_file(eng):
+    """parse_file(): the parsed tree, or None exactly when the file cannot be read or parsed (syntax error, listener error); nothing
+    escapes -- this is what makes parse_all's error list, and with it the exit status, count files with parse errors"""
+    G, logging = setup(eng)
+    outcome = ["tree", "syntax-error", "KeyError", "AttributeError", "OSError-on-open", "OSError-on-read", "UnicodeDecodeError"][eng.choice(7)]
+    eng.input("outcome", outcome)
+    verbose = eng.choice(3)
+    logging.log.level = [30, 20, 10][verbose]
+    tree = VObj(VClass("Tree"))
+    tree.cls.attrs["to_json"] = _m(lambda eng, selfobj, *a: VDict())
+
+    def parse(eng, text):
+        if outcome == "syntax-error":
+            return None
+        if outcome in ("KeyError", "AttributeError"):
+            raise PyRaise(make_exc(outcome, "listener"))
+        return tree
+    pm = ModuleStub("pymoca.parser", {"parse": stub(parse)})
+    eng.ext_modules["pymoca.parser"] = pm
+    eng.ext_modules["pymoca"].attrs["parser"] = pm
+    eng.ext_modules["json"] = ModuleStub("json", {"dumps": stub(lambda eng, *a, **k: "json")})
+
+    class F(Ext):
+        def sym_getattr(self, eng, name):
+            if name == "__enter__":
+                def enter(eng):
+                    return self
+                return stub(enter)
+            if name == "__exit__":
+                return stub(lambda eng, *a: False)
+            if name == "read":
+                def read(eng):
+                    if outcome == "OSError-on-read":
+                        raise PyRaise(make_exc("OSError", "read"))
+                    if outcome == "UnicodeDecodeError":
+                        raise PyRaise(make_exc("UnicodeDecodeError", "codec"))
+                    return "text"
+                return stub(read)
+            raise Unsupported("file.%s" % name)
+
+    class P(PathStub):
+        def sym_getattr(self, eng, name):
+            if name == "open":
+                def op(eng, *a, **k):
+                    if outcome == "OSError-on-open":
+                        raise PyRaise(make_exc("OSError", "open"))
+                    return F()
+                return stub(op)
+            return PathStub.sym_getattr(self, eng, name)
+    f = eng.find_function(MOD, "parse_file")
+    try:
+        r = eng.call(f, [P(eng, "a.mo")], {})
+    except PyRaise as e:
+        name = e.exc.cls.name if isinstance(e.exc, VObj) else "?"
+        eng.cover("parsefile.raises")
+        # a file that is not valid UTF-8 is a file with a parse error too; the statement counts it, it must not abort the run
+        eng.prove("parsefile.no_exception_escapes_for_an_unreadable_or_unparsable_file", False, exc=name, outcome=outcome)
+        return
+    eng.cover("parsefile.returns")
+    eng.prove("parsefile.no_exception_escapes_for_an_unreadable_or_unparsable_file", True)
+    eng.prove("parsefile.none_exactly_when_the_file_has_a_parse_error", z3.BoolVal((r is tree) == (outcome == "tree") and (r is None) == (outcome != "tree")))
+
+
+def _m(fn):
+    fn._pyvc_method = True
+    return fn
+
+
+def h_flatten_class(eng):
+    """flatten_class(): the result (or exception) of pymoca.tree.flatten for the dotted class name on the library tree"""
+    G, logging = setup(eng)
+    fails = bool(eng.choice(2))
+    lib, flat = VObj(VClass("Tree")), VObj(VClass("Tree"))
+    flat.cls.attrs["to_json"] = _m(lambda eng, selfobj, *a: VDict())
+    seen = []
+
+    def flatten(eng, tree, ref):
+        seen.append((tree, ref))
+        if fails:
+            raise PyRaise(make_exc("ClassNotFoundError", "x"))
+        return flat
+    exc_class("ClassNotFoundError")
+    cref = VClass("ComponentRef")
+    cref.attrs["from_string"] = stub(lambda eng, s_: ("ref", s_))
+    eng.ext_modules["pymoca"].attrs["tree"] = ModuleStub("pymoca.tree", {"flatten": stub(flatten)})
+    eng.ext_modules["pymoca"].attrs["ast"] = ModuleStub("pymoca.ast", {"ComponentRef": cref, "Tree": VClass("Tree")})
+    eng.ext_modules["json"] = ModuleStub("json", {"dumps": stub(lambda eng, *a, **k: "json")})
+    f = eng.find_function(MOD, "flatten_class")
+    name = eng.fresh_str("cls")
+    try:
+        r = eng.call(f, [lib, name], {})
+        raised = False
+    except PyRaise:
+        r, raised = None, True
+    eng.cover("flattenclass.done")
+    eng.prove("flattenclass.outcome_is_flattens_outcome_for_this_class_on_this_library",
+              z3.BoolVal(raised == fails and (fails or r is flat) and len(seen) == 1 and seen[0][0] is lib and seen[0][1][0] == "ref" and seen[0][1][1] is name))
+
+
+def _parse_all(eng):
+    from .C27 import h_compiler_file_loop
+    return h_compiler_file_loop(eng)
+
+
+HARNESSES = [("tools.compiler.main", h_main), ("tools.compiler.translate", h_translate), ("tools.compiler.parse_file", h_parse_file),
+             ("tools.compiler.flatten_class", h_flatten_class), ("tools.compiler.parse_all / list_modelica_files", _parse_all)]
+EXPECTED_COVER = {"main.exits", "main.returns", "translate.returns", "parsefile.returns", "flattenclass.done", "fileloop.compiler"}
 BOUNDED = True
 LEVEL = "proof"
 TRUSTED = ["pyvc VC generator", "z3 5.1.0",
            "argparse: parse_args returns a namespace with the declared fields, argp.error raises SystemExit(2)",
-           "contracts of parse_all / list_modelica_files / flatten_class / casadi transfer_model (outcome symbolic; a failure is an exception or False)"]
+           "contract of casadi transfer_model (outcome symbolic; a failure is an exception); parse_all / list_modelica_files / flatten_class / parse_file are verified against the contracts main is checked with"]
 ASSUMPTIONS = [
     "list lengths are enumerated, not symbolic: 1-2 paths, 0-2 models, 0-2 options, 0-2 files in the casadi branch (loops unrolled; outcomes per element fully symbolic)",
     "option strings are enumerated by syntactic class (NAME=true, NAME=False, NAME=text, no '=', two '=')",
@@ -337,7 +442,7 @@ DROPPED = ["logging output", "elapsed-time message formatting"]
 EXPLANATION = "Whole-function symbolic execution of tools.compiler.main with ghost failure counters in the callee contracts."
 MANIFEST = {
     "category": "proof",
-    "text": "tools.compiler.main is executed symbolically against callee contracts with ghost counters: for every combination of path existence, output-directory validity, verbosity, file and parse-error counts and per-model outcomes, the returned status equals usage errors, else parse errors (or 1 for no files), else the number of failing models; only the argparse exit 2 escapes. translate() is verified never to raise. A bounded replay through the real CLI on temp trees runs beside it.",
+    "text": "tools.compiler.main is executed symbolically against callee contracts with ghost counters: for every combination of path existence, output-directory validity, verbosity, file and parse-error counts and per-model outcomes, the returned status equals usage errors, else parse errors (or 1 for no files), else the number of failing models; only the argparse exit 2 escapes. translate() is verified never to raise; parse_file returns None exactly for a file that cannot be read, decoded or parsed and lets nothing escape; parse_all / list_modelica_files list every .mo file below the paths once, report exactly the files that failed and merge every parsed file once into the library; flatten_class is flatten's outcome for that class. A bounded replay through the real CLI on temp trees runs beside it.",
     "note": "List lengths (paths, models, options, files) are enumerated up to 2 and option strings by syntactic class: the loops are unrolled, so the proof is complete for those lengths only; argparse and the callee contracts are assumed.",
     "technique": "contract-based deductive verification: whole-function symbolic execution of the real source, ghost counters in callee contracts, z3",
 }
